@@ -1,7 +1,9 @@
 """E5 (gates part): constants of the membrane and of innate immunity -> lean/Operon/Gen/GatesConsts.lean.
 
+Measured on the real class under the harness's fake clock (measure_window): the length of the sliding window of
+`Membrane._check_rate_limit` (bisection on "is a second call admitted d seconds after the first"; the literal
+`cutoff = now - 60` is still parsed when present and must agree).
 Parsed from the source text with `ast` (facts that cannot be observed by evaluating a finite domain):
-  * the length of the sliding window in `Membrane._check_rate_limit` (`cutoff = now - 60`),
   * the cut-offs of `InnateImmunity._evaluate_inflammation` and the weight of a structural error.
 Evaluated on the imported classes (finite tables / defaults — evaluate, do not parse):
   * `ThreatLevel` / `InflammationLevel` values, constructor defaults, the default validator list,
@@ -141,10 +143,48 @@ def _guard(fn):
         return None
 
 
-def generate(repo: Path, membrane_mod, innate_mod) -> str:
+def measure_window(M, clock):
+    """The length of the rate window in whole seconds, MEASURED on the real class under the harness's fake clock (so a
+    literal, a module / class constant or an attribute give the same fact): with rate_limit=1 and one call admitted at
+    t0, a second call at t0+d is refused while d < W and admitted from d = W on; bisection over whole seconds, then the
+    boundary is confirmed at 125 ms resolution (refused at W - 0.125 s, admitted at W)."""
+    from operon_ai.core.types import Signal
+    saved = clock.us
+
+    def admitted_after(us):
+        clock.us = 0
+        m = M.Membrane(rate_limit=1, silent=True)
+        if not m.filter(Signal(content="window probe a")).allowed:
+            raise ValueError("first call refused")
+        clock.us = us
+        return bool(m.filter(Signal(content="window probe b")).allowed)
+    try:
+        if admitted_after(0) or not admitted_after(10 ** 6 * 10 ** 6):
+            return None
+        lo, hi = 0, 10 ** 6                     # refused after lo seconds, admitted after hi seconds
+        while hi - lo > 1:
+            mid = (lo + hi) // 2
+            if admitted_after(mid * 10 ** 6):
+                hi = mid
+            else:
+                lo = mid
+        if admitted_after(hi * 10 ** 6 - 125_000) or not admitted_after(hi * 10 ** 6):
+            return None
+        return hi
+    finally:
+        clock.us = saved
+
+
+def generate(repo: Path, membrane_mod, innate_mod, clock=None) -> str:
     msrc = (repo / "operon_ai/organelles/membrane.py").read_text()
     isrc = (repo / "operon_ai/surveillance/innate.py").read_text()
-    window = parse_window(msrc)
+    parsed = parse_window(msrc)
+    if clock is not None:
+        window = _guard(lambda: measure_window(membrane_mod, clock))
+        if parsed is not None and window is not None and parsed != window:
+            window = None                       # the literal in the source and the measured behaviour disagree
+    else:
+        window = parsed
     cuts = parse_inflammation(isrc)
     M, I = membrane_mod, innate_mod
 
